@@ -450,7 +450,9 @@ class Message:
         if size > MAX_MEMORY_SIZE:
             raise OutOfGasError(f"calldata read {start=} {size=} > MAX_MEMORY_SIZE")
 
-        return self.data.slice(start=start, stop=start + size)
+        # a creation frame has no calldata (its `data` is the init code, see Exec.calldata())
+        data = ByteVec() if self.is_create() else self.data
+        return data.slice(start=start, stop=start + size)
 
 
 @dataclass(frozen=False, slots=True, eq=False, order=False)
